@@ -1,64 +1,200 @@
-//! Driver + logger for dasp_rms::Rms through its own API (next / next_squared / current / reset /
-//! window_frames).  Shared (via #[path]) by the std harness hx_dsp1 and the no_std-configured
-//! harness_nostd/hx_rms_nostd; `build` says which one is running and goes into the header.
-//! No expected values: Trace_Rms.tla is the judge.
+//! Driver + logger for dasp_rms::Rms through its own API (new over every ring storage / next /
+//! next_squared / current / reset / window_frames / Clone / moves).  Shared (via #[path]) by the std
+//! harness hx_dsp1 and the no_std-configured harness_nostd/hx_rms_nostd; `build` says which one is
+//! running and goes into the header.  No expected values: Trace_Rms.tla is the judge.
+//!
+//! An execution owns a growing list of detector INSTANCES: instance 0 is built by the header, every
+//! `rms_clone {i, j}` appends instance j = a `Clone` of instance i, and every event names the
+//! instance it acts on (`a.i`, 0 when absent).  `rms_move {i}` moves instance i to a new place in
+//! memory (through a Box) -- a move is not an operation of the model, the instance just goes on.
 use crate::fmt::*;
-use dasp_ring_buffer::Fixed;
+use dasp_ring_buffer::{Fixed, Slice, SliceMut};
 use dasp_rms::Rms;
 use hx_common::*;
 use serde_json::{json, Value};
 
-pub fn rms_direct<S, const N: usize>(out: &mut Out, reset: &Value, ops: &[Value], build: &str)
+pub type FF<S, const N: usize> = [<S as dasp_sample::Sample>::Float; N];
+
+/// instance index of an event (0 when the stimulus does not name one)
+pub fn inst(op: &Value, key: &str) -> usize {
+    op["a"][key].as_u64().unwrap_or(0) as usize
+}
+/// move a value somewhere else in memory and back into the caller's hands
+pub fn relocate<T>(t: T) -> T {
+    *std::hint::black_box(Box::new(t))
+}
+pub fn eq_window<S: Fmt, const N: usize>(n: usize) -> Vec<FF<S, N>>
+where
+    S::Float: Fmt,
+{
+    vec![<FF<S, N> as dasp_frame::Frame>::EQUILIBRIUM; n]
+}
+
+/// the result of one call on a direct detector: None = panic, Some(None) = unit, Some(Some(f)) = a frame
+pub type Ret<S, const N: usize> = Option<Option<FF<S, N>>>;
+
+/// One call of the detector's own API (measured); the frame is decoded (and its log form built) outside
+/// the measured window.  Returns (logged arguments without `i`, result, heap counters).
+pub fn direct_call<S, St, const N: usize>(rms: &mut Rms<[S; N], St>, ev: &str, op: &Value) -> (Value, Ret<S, N>, [i64; 3])
 where
     S: Fmt,
     S::Float: Fmt,
+    St: Slice<Element = FF<S, N>> + SliceMut,
 {
+    let x: Option<[S; N]> = op["a"].get("x").map(|v| dec_frame::<S, N>(v));
+    let a = match &x {
+        Some(f) => json!({"x": enc_frame(f)}),
+        None => json!({"z": 0}),
+    };
+    let (r, h, _) = measured(|| {
+        catch(|| match ev {
+            "next" => Some(rms.next(x.unwrap())),
+            "next_squared" => Some(rms.next_squared(x.unwrap())),
+            "current" => Some(rms.current()),
+            "rms_reset" => {
+                rms.reset();
+                None
+            }
+            _ => panic!("unknown rms op {}", ev),
+        })
+    });
+    (a, r, h)
+}
+pub fn ret_json<S: Fmt, const N: usize>(r: Ret<S, N>) -> Value
+where
+    S::Float: Fmt,
+{
+    match r {
+        None => r_panic(),
+        Some(None) => r_unit(),
+        Some(Some(f)) => r_val(enc_frame(&f)),
+    }
+}
+pub fn with_i(mut a: Value, i: usize) -> Value {
+    a["i"] = json!(i);
+    a
+}
+
+/// header fields every rms execution logs (defaults for stimuli that do not carry them)
+pub fn rms_cfg(reset: &Value, build: &str, via: &str) -> Value {
     let mut cfg = reset["cfg"].clone();
     cfg["build"] = json!(build);
-    cfg["via"] = json!("direct");
+    cfg["via"] = json!(via);
+    cfg["store"] = json!(cfg["store"].as_str().unwrap_or("vec"));
+    cfg["src"] = json!(cfg["src"].as_str().unwrap_or("iter"));
+    cfg
+}
+
+/// `make` builds the ring buffer handed to Rms::new; `cl` clones a detector where its storage can be cloned.
+pub fn rms_direct<S, St, const N: usize>(
+    out: &mut Out,
+    reset: &Value,
+    ops: &[Value],
+    build: &str,
+    make: impl FnOnce(usize) -> Fixed<St>,
+    cl: fn(&Rms<[S; N], St>) -> Option<Rms<[S; N], St>>,
+) where
+    S: Fmt,
+    S::Float: Fmt,
+    St: Slice<Element = FF<S, N>> + SliceMut,
+{
+    let cfg = rms_cfg(reset, build, "direct");
     let n = cfg["n"].as_u64().unwrap() as usize;
-    let built = catch(|| {
-        let window: Vec<[S::Float; N]> = vec![<[S::Float; N] as dasp_frame::Frame>::EQUILIBRIUM; n];
-        Rms::<[S; N], Vec<[S::Float; N]>>::new(Fixed::from(window))
-    });
-    let mut rms = match built {
+    let built = catch(move || Rms::<[S; N], St>::new(make(n)));
+    let first = match built {
         None => {
             out.line(&json!({"ev":"reset","comp":"rms","cfg":cfg,"r":r_panic(),"o":{"ok":false,"wf":0,"cur":[]}}));
             return;
         }
         Some(r) => r,
     };
-    let o = match catch(|| (rms.window_frames(), rms.current())) {
+    let o = match catch(|| (first.window_frames(), first.current())) {
         Some((wf, cur)) => json!({"ok":true,"wf":wf,"cur":enc_frame(&cur)}),
         None => json!({"ok":false,"wf":0,"cur":[]}),
     };
     out.line(&json!({"ev":"reset","comp":"rms","cfg":cfg,"r":r_unit(),"o":o}));
+    let mut insts: Vec<Option<Rms<[S; N], St>>> = vec![Some(first)];
     for op in ops {
         let ev = op["ev"].as_str().unwrap();
-        // the frame is decoded (and its log form built) outside the measured window
-        let x: Option<[S; N]> = op["a"].get("x").map(|v| dec_frame::<S, N>(v));
-        let a = match &x {
-            Some(f) => json!({"x": enc_frame(f)}),
-            None => json!({"z": 0}),
-        };
-        let (r, h, _) = measured(|| {
-            catch(|| match ev {
-                "next" => Some(rms.next(x.unwrap())),
-                "next_squared" => Some(rms.next_squared(x.unwrap())),
-                "current" => Some(rms.current()),
-                "rms_reset" => {
-                    rms.reset();
-                    None
+        let i = inst(op, "i");
+        if i >= insts.len() {
+            // no such instance: nothing can be called
+            out.ev(ev, json!({"i": i, "z": 0}), r_panic(), json!({}), [0, 0, 0]);
+            continue;
+        }
+        match ev {
+            "rms_clone" => {
+                let j = insts.len();
+                let (c, h, _) = measured(|| catch(|| cl(insts[i].as_ref().expect("live instance")).expect("storage cannot be cloned")));
+                // window_frames() and current() of the new instance right after the clone
+                let o = match c.as_ref().and_then(|c| catch(|| (c.window_frames(), c.current()))) {
+                    Some((wf, cur)) => json!({"ok":true,"wf":wf,"cur":enc_frame(&cur)}),
+                    None => json!({"ok":false,"wf":0,"cur":[]}),
+                };
+                let r = if c.is_some() { r_unit() } else { r_panic() };
+                insts.push(c);
+                out.ev(ev, json!({"i": i, "j": j}), r, o, h);
+            }
+            "rms_move" => {
+                let (m, h, _) = measured(|| catch(|| relocate(insts[i].take().expect("live instance"))));
+                let r = if m.is_some() { r_unit() } else { r_panic() };
+                insts[i] = m;
+                out.ev(ev, json!({"i": i}), r, json!({}), h);
+            }
+            _ => match insts[i].as_mut() {
+                Some(rms) => {
+                    let (a, r, h) = direct_call::<S, St, N>(rms, ev, op);
+                    out.ev(ev, with_i(a, i), ret_json::<S, N>(r), json!({}), h);
                 }
-                _ => panic!("unknown rms op {}", ev),
-            })
-        });
-        let r = match r {
-            None => r_panic(),
-            Some(None) => r_unit(),
-            Some(Some(f)) => r_val(enc_frame(&f)),
+                // the instance does not exist (its clone panicked)
+                None => out.ev(ev, json!({"i": i, "z": 0}), r_panic(), json!({}), [0, 0, 0]),
+            },
+        }
+    }
+}
+
+/// Rms::new over each kind of ring storage (cfg.store): Vec (default), Box<[T]>, a borrowed `&mut [T]`
+/// and fixed-size arrays [T; n] for n = 1..4.
+pub fn rms_direct_any<S, const N: usize>(out: &mut Out, reset: &Value, ops: &[Value], build: &str)
+where
+    S: Fmt,
+    S::Float: Fmt,
+{
+    let n = reset["cfg"]["n"].as_u64().unwrap() as usize;
+    macro_rules! arr {
+        ($k:literal) => {
+            rms_direct::<S, [FF<S, N>; $k], N>(
+                out,
+                reset,
+                ops,
+                build,
+                |_| Fixed::from([<FF<S, N> as dasp_frame::Frame>::EQUILIBRIUM; $k]),
+                |r| Some(r.clone()),
+            )
         };
-        out.ev(ev, a, r, json!({}), h);
+    }
+    match reset["cfg"]["store"].as_str().unwrap_or("vec") {
+        "vec" => rms_direct::<S, Vec<FF<S, N>>, N>(out, reset, ops, build, |n| Fixed::from(eq_window::<S, N>(n)), |r| Some(r.clone())),
+        "box" => rms_direct::<S, Box<[FF<S, N>]>, N>(
+            out,
+            reset,
+            ops,
+            build,
+            |n| Fixed::from(eq_window::<S, N>(n).into_boxed_slice()),
+            |r| Some(r.clone()),
+        ),
+        "slice" => {
+            let mut buf = eq_window::<S, N>(n);
+            rms_direct::<S, &mut [FF<S, N>], N>(out, reset, ops, build, |_| Fixed::from(&mut buf[..]), |_| None)
+        }
+        "array" => match n {
+            1 => arr!(1),
+            2 => arr!(2),
+            3 => arr!(3),
+            4 => arr!(4),
+            _ => panic!("array storage: unsupported window {}", n),
+        },
+        s => panic!("unknown ring storage {}", s),
     }
 }
 
